@@ -129,6 +129,9 @@ def palette():
           _simple("u8+spline0", "Integer", I(8, default_cal=SPL0), 8),
           _simple("u8+spline1+extrapolate", "Integer", I(8, default_cal=SPL1X), 8, core=True),
           _simple("u64+spline0(knots beyond 2**53)", "Integer", I(64, default_cal=SPL_BIG), 64),
+          # two points at one raw value, the calibrated value stepping DOWN there (left limit 50, right limit 20), and up again later
+          _simple("u8+spline0(step down at 2, up at 165)", "Integer", I(8, default_cal=Spline(((0.0, 10.0), (2.0, 50.0), (2.0, 20.0), (165.0, 20.0), (165.0, 90.0), (255.0, 0.0)), 0, False)), 8),
+          _simple("u8+spline1(step down at 90)", "Integer", I(8, default_cal=Spline(((0.0, 10.0), (90.0, 50.0), (90.0, 20.0), (255.0, 30.0)), 1, False)), 8),
           _simple("f32+poly", "Float", F(32, default_cal=Poly(((0.0, 0), (2.0, 1)))), 32),
           # numbers that need all their digits: 17-digit and very small / large coefficients, spline coordinates, time scales
           _simple("u8+poly(long coefficients)", "Integer", I(8, default_cal=Poly(((1234567.5, 0), (1.52587890625e-05, 1), (0.1, 2), (-0.3333333333333333, 3)))), 8),
